@@ -140,7 +140,16 @@ def check(case, obs):
     out = call(FlowCal.mef.fit_beads_autofluorescence, list(rfi) if container == 'list' else np.array(rfi), mef_arg)
     if not obs.claim('fits', not raised(out), lambda: 'fit raised %r' % (out,)):
         return
-    _structure(out, rfi, obs)
+    sc_before, grid0 = _structure(out, rfi, obs)
+    bm_before = np.asarray(out[1](grid0), dtype=float)
+    params_before = np.array(out[2], dtype=float)
+    # a later, unrelated fit must not change what an earlier fit returned
+    call(FlowCal.mef.fit_beads_autofluorescence, np.array([3.0, 11.0, 47.0, 190.0, 800.0]),
+         np.array([900.0, 5200.0, 41000.0, 250000.0, 1.9e6]))
+    obs.claim('stable', bool(np.array_equal(np.asarray(out[0](grid0), dtype=float), sc_before))
+              and bool(np.array_equal(np.asarray(out[1](grid0), dtype=float), bm_before))
+              and bool(np.array_equal(np.asarray(out[2], dtype=float), params_before)),
+              'the curve / model / parameters returned by a fit changed after another fit was made')
     if arm == 'recover':
         grid = np.exp(np.linspace(math.log(min(rfi)), math.log(max(rfi)), 80))
         got = np.asarray(out[0](grid), dtype=float)
